@@ -184,6 +184,18 @@ class Typer:
             for t in s.targets:
                 self.ty(t, env)
             return env
+        if isinstance(s, ast.Match):
+            self.ty(s.subject, env)
+            out = dict(env)
+            for c in s.cases:
+                e = dict(env)
+                p = c.pattern
+                if isinstance(p, ast.MatchClass) and isinstance(s.subject, ast.Name):
+                    cn = ctx_of_annotation(p.cls)
+                    if cn and self.cc.has(cn):
+                        e[s.subject.id] = frozenset(["ctx:" + cn])
+                out = self.join(out, self.block(c.body, e))
+            return out
         for e in ast.iter_child_nodes(s):
             if isinstance(e, ast.expr):
                 self.ty(e, env)
